@@ -1,5 +1,6 @@
 SPECIFICATION TSpec
 CONSTANTS
+  KnownF14 = TRUE
   IdleUs = 30000000
   SlackUs = 1000000
 POSTCONDITION TraceAccepted
